@@ -494,6 +494,14 @@ def wd_of(m):
     return [[n, repr(v)] for n, v in m.writeDict.items()]
 
 
+def hooks_of(m):
+    """the parameters whose callback list holds the module's saveParameters (what `addCallback` registered and
+    `announceUpdate` calls), in the order of the parameters"""
+    return [n for n in m.parameters
+            if any(getattr(cb, '__name__', None) == 'saveParameters' and getattr(cb, '__self__', None) is m
+                   for cb, _ in m.paramCallbacks.get(n, ()))]
+
+
 def hexo(b):
     return None if b is None else b.hex()
 
@@ -518,7 +526,8 @@ def step_record(bench, m, exc):
     t, tmp, listing = fs.state()
     return {'evs': [list(e) for e in fs.log], 'snaps': list(fs.snaps), 'raised': exc is not None, 'exc': exc,
             'values': values_of(m) if m is not None else None, 'writeDict': wd_of(m) if m is not None else None,
-            'writes': list(m.wlog) if m is not None else [], 'target': t, 'tmp': tmp, 'listing': listing}
+            'writes': list(m.wlog) if m is not None else [], 'target': t, 'tmp': tmp, 'listing': listing,
+            'hooks': hooks_of(m) if m is not None else None}
 
 
 def ser_chunks(data, buf=None):
@@ -562,6 +571,8 @@ def run_impl(spec, case, trials=True, crash_budget=None, rng=None):
         for act in case['acts']:
             pre = fs.state()
             believed = m.persistentData
+            pobj = m.parameters[act['name']] if act['a'] == 'set' else None
+            pstate = (pobj.value, pobj.readerror, pobj.timestamp) if pobj is not None else None
             m.wlog = []
             fs.reset(act.get('fault'))
             exc = None
@@ -574,11 +585,23 @@ def run_impl(spec, case, trials=True, crash_budget=None, rng=None):
             rec['data'] = export_data(m)
             out['datas'].append(rec['data'])
             out['steps'].append(rec)
-            # ---- fork: the same save under every single fault, each followed by a healthy save
+            # ---- fork: the same save under every single fault, each followed by a healthy next save.  The save is triggered
+            # the way the step triggered it: an explicit saveParameters(), or - for a change of an `auto` parameter - the
+            # update itself (state of the parameter put back), followed by the next update of that parameter (the same value
+            # announced again, as every poll does); so the path through the callbacks of announceUpdate meets every fault, too
             if trials and act.get('fault') is None and rec['evs'] and not m.writeDict:
                 post = fs.state()
                 post_believed = m.persistentData
                 nops = len(rec['evs'])
+                via = 'set' if pobj is not None else 'save'
+
+                def trigger(first):
+                    if via == 'set':
+                        if first:
+                            pobj.value, pobj.readerror, pobj.timestamp = pstate
+                        do_action(m, spec, act)
+                    else:
+                        m.saveParameters()
                 for k in range(nops):
                     for part in ((0, 0.5) if rec['evs'][k][0] == 'write' else (0,)):
                         fs.set_state(pre[0], pre[1])
@@ -586,18 +609,18 @@ def run_impl(spec, case, trials=True, crash_budget=None, rng=None):
                         fs.reset({'idx': k, 'part': part})
                         e1 = None
                         try:
-                            m.saveParameters()
+                            trigger(True)
                         except Exception as e:  # pylint: disable=broad-except
                             e1 = type(e).__name__
                         t1 = step_record(bench, m, e1)
                         fs.reset(None)
                         e2 = None
                         try:
-                            m.saveParameters()
+                            trigger(False)
                         except Exception as e:  # pylint: disable=broad-except
                             e2 = type(e).__name__
                         t2 = step_record(bench, m, e2)
-                        out['trials'].append({'step': len(out['steps']) - 1, 'k': k, 'part': part, 'pre': pre,
+                        out['trials'].append({'step': len(out['steps']) - 1, 'k': k, 'part': part, 'pre': pre, 'via': via,
                                               'first': t1, 'second': t2, 'data': rec['data']})
                 fs.set_state(post[0], post[1])
                 m.persistentData = post_believed
@@ -788,9 +811,13 @@ class Tables:
 # histories
 # ----------------------------------------------------------------------------------------
 def gen_case(rng, spec, big):
+    """a history without faults (`place_faults` adds them)"""
     acts = []
     names = [p['name'] for p in spec['params']]
     pers = [p for p in spec['params'] if p['flag'] in ('on', 'auto')]
+    if rng.random() < 0.5:
+        # what the poller does first; from then on no configured write is pending and saves are not deferred
+        acts.append({'a': 'writeInit'})
     for _ in range(rng.randint(2, 9 if big else 6)):
         r = rng.random()
         if r < 0.45 and names:
@@ -804,8 +831,6 @@ def gen_case(rng, spec, big):
             act = {'a': 'load'}
         else:
             act = {'a': 'factoryReset'}
-        if rng.random() < 0.25:
-            act['fault'] = {'idx': rng.choice([0, 1, 2, 3, 5, 8, 13, 21, 34, rng.randint(0, 60)]), 'part': rng.choice([0, 0.5, 1])}
         acts.append(act)
     case = {'acts': acts, 'file': None, 'stale': None, 'fault': None, 'buf': rng.choice(BUFFERINGS)}
     if rng.random() < 0.15:
@@ -813,6 +838,32 @@ def gen_case(rng, spec, big):
     if rng.random() < 0.25:
         case['stale'] = rng.choice([b'', b'{\n  "p0": 1', b'\xff\xfe garbage']).hex()
     return case
+
+
+def place_faults(rng, spec, case):
+    """decides which actions of the history meet an I/O error, and where.  A fault-free run of the history tells which steps
+    save and with how many operations: 35 % of those get a fault aimed at the open, the first / last write, the close, the rename,
+    the remove or a random operation of that very save (a step that does not save: 8 %, at a small index - it can only fire if the
+    step saves after all because of an earlier fault).  What follows a failed save decides whether it "is attempted again by the
+    next save instead of being considered done": after a failed *automatic* save (update of an `auto` parameter; the error is
+    swallowed by announceUpdate) the history goes on, in 70 % of the cases, with 1-3 further updates of that same parameter and
+    nothing else - no explicit saveParameters(), no other parameter"""
+    dry = run_impl(spec, dict(case, fault=None), trials=False)['steps']
+    if dry[0]['values'] is None:
+        return
+    out = []
+    for i, act in enumerate(case['acts']):
+        out.append(act)
+        n = len(dry[i + 1]['evs']) if i + 1 < len(dry) else 0
+        if n and rng.random() < 0.35:
+            act['fault'] = {'idx': rng.choice([0, 1, n - 4, n - 3, n - 2, n - 1, rng.randrange(n)]) % n, 'part': rng.choice([0, 0.5, 1])}
+            if act['a'] == 'set' and rng.random() < 0.7:
+                p = next(x for x in spec['params'] if x['name'] == act['name'])
+                for _ in range(rng.randint(1, 3)):
+                    out.append({'a': 'set', 'name': p['name'], 'val': gen_val(rng, p['dt'], valid=rng.random() < 0.85)})
+        elif not n and rng.random() < 0.08:
+            act['fault'] = {'idx': rng.choice([0, 1, 2, 3, 5, 8]), 'part': rng.choice([0, 0.5, 1])}
+    case['acts'] = out
 
 
 def model_request(spec, case, ref, impl, tables):
@@ -855,7 +906,7 @@ def model_request(spec, case, ref, impl, tables):
 
 def obs_step(rec):
     return {'evs': rec['evs'], 'writes': rec['writes'], 'raised': rec['raised'], 'values': rec['values'],
-            'writeDict': rec['writeDict'], 'target': hexo(rec['target']), 'tmp': hexo(rec['tmp'])}
+            'writeDict': rec['writeDict'], 'hooks': rec['hooks'], 'target': hexo(rec['target']), 'tmp': hexo(rec['tmp'])}
 
 
 def new_bytes(data):
@@ -1062,6 +1113,32 @@ def check_case(ctx, res, spec, case, quick_crash=3, kind='history'):
         tags.append(('retry', ('trial', j)))
         res.traces += 2
         res.count('fault.at.' + t['first']['evs'][t['k']][0] if t['k'] < len(t['first']['evs']) else 'fault.unreached')
+    # ---- "a save that failed is attempted again by the next save" along the history itself: after a step in which a save hit the
+    # injected fault and did not get the snapshot onto the disk, the next step that is a save by the documented triggers
+    # (saveParameters(), or an update of an `auto` parameter, undisturbed, no write pending) must work again
+    flags = {p['name']: p['flag'] for p in spec['params']}
+    failed_at = None
+    for i, rec in enumerate(steps):
+        if i == 0:
+            continue
+        act = case['acts'][i - 1]
+        newb = new_bytes(rec['data'])
+        due = (act.get('fault') is None and not steps[i - 1]['writeDict'] and not rec['raised']
+               and (act['a'] == 'save' or (act['a'] == 'set' and flags.get(act['name']) == 'auto')))
+        if failed_at is not None and due:
+            reqs.append({'p': 'C17', 'k': 'judge_retry', 'new': newb.hex(), 'mid': hexo(rec['pre'][0]),
+                         'fin': hexo(rec['target']), 'ops2': len(rec['evs'])})
+            tags.append(('retry-line', (failed_at, i)))
+            res.traces += 1
+            res.count('retry.in-history.via-' + act['a'])
+            failed_at = None
+        fired = next((e for e in rec['evs'] if e[-1] == 'FAULT'), None)
+        if fired is not None:
+            res.count('fault.in-history.at.' + fired[0] + ('.swallowed' if not rec['raised'] else ''))
+            if rec['target'] != newb:
+                failed_at = i
+        elif rec['evs'] and rec['target'] == newb:
+            failed_at = None
     # ---- restarts: after every clean save (round trip) and from crash snapshots
     cache = {}
 
@@ -1071,7 +1148,6 @@ def check_case(ctx, res, spec, case, quick_crash=3, kind='history'):
             r = restart(spec, target, tmp)
             cache[key] = r
         return cache[key]
-    flags = {p['name']: p['flag'] for p in spec['params']}
     for i, rec in enumerate(steps):
         if not rec['evs']:
             # a step that is a save by the documented triggers (saveParameters(), or a change of an `auto` parameter, while
@@ -1149,10 +1225,19 @@ def check_case(ctx, res, spec, case, quick_crash=3, kind='history'):
         elif tag == 'retry' and not a['ok']:
             t = impl['trials'][where[1]]
             res.violations.append({'sig': 'C17:failed-save-not-retried',
-                                   'what': f'save failed with {t["first"]["exc"]} at operation {t["k"]} '
-                                           f'({t["first"]["evs"][min(t["k"], len(t["first"]["evs"]) - 1)][:2]}); the next save performed '
+                                   'what': f'save ({"update of an auto parameter" if t.get("via") == "set" else "saveParameters()"}) failed '
+                                           f'with {t["first"]["exc"] or "an error swallowed by announceUpdate"} at operation {t["k"]} '
+                                           f'({t["first"]["evs"][min(t["k"], len(t["first"]["evs"]) - 1)][:2]}); the next one performed '
                                            f'{len(t["second"]["evs"])} file operations and the file still holds the old snapshot',
                                    'case': dict(full, where=where)})
+        elif tag == 'retry-line' and not a['ok']:
+            j, i = where
+            act = case['acts'][i - 1]
+            fired = next((e for e in steps[j]['evs'] if e[-1] == 'FAULT'), ['?'])
+            res.violations.append({'sig': 'C17:failed-save-not-retried',
+                                   'what': f'the save of step {j} ({case["acts"][j - 1]["a"]}) failed at its {fired[0]}; the next save, step {i} '
+                                           f'({act["a"]}{" " + act["name"] if "name" in act else ""}), performed {len(steps[i]["evs"])} file '
+                                           f'operations and the file does not hold the current values', 'case': dict(full, where=['step', i])})
         elif tag == 'roundtrip' and not a['ok']:
             res.violations.append({'sig': 'C17:roundtrip', 'what': f'values restored after save differ from the values saved at step {where[1]}',
                                    'case': dict(full, where=where)})
@@ -1450,6 +1535,7 @@ def run(ctx):
                 if rng.random() < 0.5:
                     # the documented reaction to a power cycle found at the first poll: reload right after start-up
                     case['acts'].insert(rng.choice([0, 0, 1]), {'a': 'load'})
+        place_faults(rng, spec, case)
         if case.get('fault') is not None:
             # a fault in the save of start-up: aim at every kind of operation (open, first / last write, close, rename, remove)
             n = len(run_impl(spec, dict(case, fault=None, acts=[]), trials=False)['steps'][0]['evs'])
